@@ -371,6 +371,14 @@ class Session:
     def make_event(self, kind, has_ui, size=None):
         from dlms_cosem.protocol import acse
         from dlms_cosem import enumerations as en
+        if kind == "aarq" and int(has_ui) == 2:
+            # an AARQ the caller builds itself (application context without ciphering, plain InitiateRequest):
+            # with keys set the connection still has to cipher the InitiateRequest
+            from dlms_cosem.protocol import xdlms
+            return acse.ApplicationAssociationRequest(
+                ciphered=False, system_title=self.conn.client_system_title,
+                user_information=acse.UserInformation(xdlms.InitiateRequest(
+                    proposed_conformance=self.conn.conformance, client_max_receive_pdu_size=self.conn.max_pdu_size)))
         if kind == "aarq":
             return self.conn.get_aarq()
         if kind == "rlrq":
@@ -452,7 +460,7 @@ def run_history(cfg_json, ops):
     real = []
     for op in ops:
         if op[0] == "send":
-            lines.append(f"conn send {op[1]} {int(op[2])}")
+            lines.append(f"conn send {op[1]} {min(int(op[2]), 1)}")
             real.append(None)
         elif op[0] == "recv":
             b = transform_bytes(meter.input_bytes(list(op[1])), op[2] if len(op) > 2 else None)
@@ -472,7 +480,7 @@ def run_history(cfg_json, ops):
         for op, b in zip(ops, real):
             before = obs_text(s.conn)
             if op[0] == "send":
-                r = s.send(op[1], bool(op[2]), op[3] if len(op) > 3 else None)
+                r = s.send(op[1], int(op[2]), op[3] if len(op) > 3 else None)
             elif op[0] == "recv":
                 r = s.recv(b)
             else:
